@@ -97,10 +97,14 @@ pub fn program(ch: &mut Choices, o: &WildOpts) -> (Vec<Line>, WildInfo) {
                 } else {
                     labels.push(format!("fn{reg}"));
                     entry_labels.push(format!("fn{reg}"));
-                    if ch.chance(1, 8) {
+                    if ch.chance(1, 5) {
+                        // a second label on the entry: a second name of the function (callable) or
+                        // just a loop label that is only branched to
                         info.multi_label_entry = true;
                         labels.push(format!("fn{reg}_alias"));
-                        entry_labels.push(format!("fn{reg}_alias"));
+                        if ch.chance(1, 2) {
+                            entry_labels.push(format!("fn{reg}_alias"));
+                        }
                     }
                 }
             } else if ch.chance(4, 5) {
